@@ -42,6 +42,7 @@ def run(ctx):
     forwarders(ctx, facts)
     generator_shape(ctx, facts)
     random_cover(ctx, facts)
+    seed_sides(ctx, facts)
     ctx.assume("AES / HKDF behave as ideal primitives; absence of (step, index) reuse over all executions is not decided")
 
 
@@ -469,3 +470,89 @@ def random_cover(ctx, facts):
             ok, why = False, f"cannot evaluate the slice bounds ({u})"
         ctx.ob("COVER-random", f"{short}:blocks-tile-source", ok, why, site_of(b, bb))
     ctx.floor("COVER-random", "sliced FromRandom impls for StdArray", n, 3)
+
+
+# ---------------------------------------------------------------------------------------------
+def upvar_sources(facts, parent, child_path):
+    """{captured variable name of child: expression in parent} from the closure / coroutine aggregate in `parent`"""
+    child = facts.bodies.get(child_path)
+    out = {}
+    if child is None:
+        return out
+    for bb, idx, s in parent.iter_assigns():
+        r = s["r"]
+        if r["k"] == "agg" and r.get("def") == child_path:
+            for i, o in enumerate(r["ops"]):
+                nm = flow.upvar_name(child, i)
+                if nm:
+                    out[nm] = flow.expr_of(parent, o, max_depth=10)
+    return out
+
+
+def seed_sides(ctx, facts):
+    """Every shard of a helper must hold the leader's left seed as its left seed and the right one as its right one:
+    exchanged, the shard's PRSS with its neighbours disagrees with theirs."""
+    ctx.rule("SIDES-seed: SeededEndpointSetup keeps (left, right) through from_prss (generate().0 -> left, .1 -> right), from_seeds(left, right), left_seed()/right_seed() and setup() (left generator from left, right from right); the leader shard sends (left_seed, right_seed) in this order and the other shards build from_seeds(received.0, received.1)")
+    P = "protocol::prss::seed::SeededEndpointSetup::"
+    fs, ls, rs, su = (facts.bodies.get(P + n) for n in ("from_seeds", "left_seed", "right_seed", "setup"))
+    if None in (fs, ls, rs, su):
+        return ctx.missing("SIDES-seed", "SeededEndpointSetup::{from_seeds,left_seed,right_seed,setup}")
+    ctx.count(bodies=4)
+    ok1 = flow.expr_of(fs, {"cp": [0]}, max_depth=6) == ("agg", ("protocol::prss::seed::SeededEndpointSetup", "SeededEndpointSetup"), (("arg", 1), ("arg", 2)))
+    names = [f["name"] for f in facts.adts["protocol::prss::seed::SeededEndpointSetup"]["variants"][0]["fields"]]
+    ok1 = ok1 and names == ["left", "right"]
+    ok2 = flow.expr_of(ls, {"cp": [0]}, max_depth=6) == ("arg", 1, "left") and flow.expr_of(rs, {"cp": [0]}, max_depth=6) == ("arg", 1, "right")
+    ok3 = False
+    for bb, idx, s in su.iter_assigns():
+        r = s["r"]
+        if r["k"] == "agg" and (r.get("adt") or "").endswith("prss::EndpointInner"):
+            fn = [f["name"] for f in facts.adts[r["adt"]]["variants"][0]["fields"]]
+            ops = dict(zip(fn, (flow.expr_of(su, o, max_depth=6) for o in r["ops"])))
+            ok3 = ("arg", 1, "left") in C09walk(ops.get("left")) and ("arg", 1, "right") in C09walk(ops.get("right")) and ("arg", 1, "right") not in C09walk(ops.get("left"))
+    ok = ok1 and ok2 and ok3
+    ctx.ob("SIDES-seed", "setup-keeps-sides", ok, "left stays left and right stays right through from_seeds / accessors / setup" if ok else "SeededEndpointSetup exchanges its left and right seed somewhere between construction and the generators", site_of(su))
+    root = "helpers::cross_shard_prss::gen_and_distribute"
+    tree = facts.tree(root)
+    sendb = next((b for b in tree if [1 for bb, t in b.calls() if (F.callee(t)[0] or "").endswith("::send")]), None)
+    mainb = next((b for b in tree if flow.find_calls(b, re.compile(r"SeededEndpointSetup::from_seeds$"))), None)
+    if sendb is None or mainb is None:
+        return ctx.missing("SIDES-seed", "gen_and_distribute (send / from_seeds)")
+    ctx.count(bodies=2)
+    sc = [(bb, t) for bb, t in sendb.calls() if (F.callee(t)[0] or "").endswith("::send")][0]
+    tup = flow.expr_of(sendb, sc[1]["args"][2], max_depth=6)
+    oks = False
+    if tup[0] == "agg" and tup[1] == "tuple" and len(tup[2]) == 2:
+        # resolve the captured variables through the enclosing closures
+        def resolve(e, body):
+            if e[0] == "upvar":
+                for parent in tree:
+                    srcs = upvar_sources(facts, parent, body.path)
+                    if e[1] in srcs:
+                        return resolve(srcs[e[1]], parent) if srcs[e[1]][0] == "upvar" else srcs[e[1]]
+            return e
+        def pick(e):
+            # .k of a tuple aggregate
+            while e[0] == "proj" and e[1][0] == "agg" and e[1][1] == "tuple" and len(e) == 3 and str(e[2]).isdigit():
+                e = e[1][2][int(e[2])]
+            return e
+        a, c = (str(pick(resolve(x, sendb))) for x in tup[2])
+        oks = "left_seed" in a and "right_seed" not in a and "right_seed" in c and "left_seed" not in c
+    ctx.ob("SIDES-seed", "leader-sends-(left, right)", oks, "send(.., (left_seed, right_seed))" if oks else "the leader does not send (left seed, right seed) in this order: the other shards' left/right generators are exchanged", site_of(sendb, sc[0]))
+    fc = flow.find_calls(mainb, re.compile(r"SeededEndpointSetup::from_seeds$"))[0]
+    a0, a1 = (flow.expr_of(mainb, x, max_depth=10) for x in fc[1]["args"])
+    okr = a0[0] == "proj" and a1[0] == "proj" and a0[1] == a1[1] and str(a0[-1]) == "0" and str(a1[-1]) == "1"
+    ctx.ob("SIDES-seed", "shards-build-from-(received.0, received.1)", okr, "from_seeds(received.0, received.1)" if okr else "a non-leader shard does not take (left, right) = (first, second) of what the leader sent", site_of(mainb, fc[0]))
+
+
+def C09walk(e):
+    out = []
+    if isinstance(e, tuple) and e and isinstance(e[0], str):
+        out.append(e)
+        for x in e[1:]:
+            if isinstance(x, tuple):
+                if x and isinstance(x[0], str):
+                    out.extend(C09walk(x))
+                else:
+                    for y in x:
+                        out.extend(C09walk(y))
+    return out
